@@ -1,7 +1,36 @@
 """Per-property configuration for bin/check."""
 
 
-def _ops_entry(pid, theorems, focus):
+RACE_ASSUMPTIONS = [
+    "two-thread half (Model/OpRace.v, driver C03R): sequentially consistent interleaving of the code between hook-B "
+    "scheduling points; the model's steps ARE those segments and every executed interleaving is replayed step by "
+    "step (a scheduling point the model does not expect, or a missing one, is a mismatch), so the atomicity of "
+    "API calls with respect to completion processing is no longer assumed for the race theorems: it is derived "
+    "from the per-operation mutex, the submission lock and the blocked-futures mutex as modelled",
+    "OpRace simplifications: single-shot operations with one completion each (no multishot, no zero-copy "
+    "notification, no result values, hence no EINTR/ECANCELED re-issue loop), Ring::poll with a zero timeout in "
+    "the default ring mode, nobody calls SubmissionQueue::wake, ring counters abstracted to ghost counters and FIFO "
+    "lists (their mechanics are C04/C05), the completion queue never overflows; kernel K1, K2, K4 with "
+    "auto-completion (what the driver uses) or completion at any later time (theorems only)",
+    "OpRace API usage (progs_ok): an operation is used by one thread and dropping it is its last call "
+    "(Rust's ownership rules); the blocked-futures mutex is never held across a scheduling point (true of the "
+    "code as replayed: the model has no holder for it and would see an unexpected LOCK_SPIN)",
+]
+RACE_TRUSTED = ["baton scheduler harness/src/sched.rs (execution log, segment observer) and the C03R driver's "
+                "attribution of wake-ups, kernel-log entries and frees to executed segments"]
+
+
+def _ops_entry(pid, theorems, focus, extra=None):
+    d = _ops_entry0(pid, theorems, focus)
+    if extra:
+        d["also_drivers"] = extra.get("also_drivers", [])
+        d["assumptions"] = d["assumptions"] + extra.get("assumptions", [])
+        d["trusted"] = d["trusted"] + extra.get("trusted", [])
+        d["model"] = d["model"] + extra.get("model", "")
+    return d
+
+
+def _ops_entry0(pid, theorems, focus):
     return dict(
         driver=pid,
         model="Model/OpState.v",
@@ -22,6 +51,30 @@ def _ops_entry(pid, theorems, focus):
     )
 
 PROPS = {
+    # Internal driver (not a property of MANIFEST.json): run by `bin/check C03` and `bin/check C06` through
+    # also_drivers; `follow_tier` makes it run at the tier of the check that includes it.
+    "C03R": dict(
+        driver="C03R",
+        internal=True,
+        follow_tier=True,
+        model="Model/OpRace.v",
+        run_fn="run_racecase",
+        theorems=[],
+        rule="one splitmix64 stream per case (VERIF_SEED, index): ring with 1, 2 or 4 submission slots on the simulated "
+             "auto-completing kernel (random 32-bit start counters), 2..5 heap-buffer writes owned by 1 or 2 future "
+             "threads, a ring thread making 1..4 Ring::poll(0) calls; future threads run 2..4 rounds: poll when never "
+             "polled or woken, re-poll unwoken with a fresh waker (0/20/50 %), drop mid-race (none/25/66 %), drop "
+             "after Ready; random schedule with preemption probability 10..60 % per hook-B point over 400 decisions; "
+             "then the ring alone (futures + 2 + parked wakers polls; oracle: every pending future's latest waker "
+             "was invoked), the remaining futures dropped, two more polls, the ring dropped (oracle: every started "
+             "state freed exactly once, no double free, at most one cancel per dropped operation); the executed "
+             "interleaving (all four phases) is replayed on Model/OpRace.v: per segment the hook-point code, poll "
+             "results, wake-ups in order, consumed submissions, frees; non-trivial = at least one preemption; "
+             "distinct by the Coq case term",
+        assumptions=RACE_ASSUMPTIONS,
+        trusted=RACE_TRUSTED + ["simulated kernel harness/src/simk.rs", "tracking allocator harness/src/alloc.rs",
+                                "a10 verif hooks A/B"],
+    ),
     "C07": dict(
         driver="C07",
         model="Model/FdTable.v",
@@ -295,10 +348,17 @@ PROPS = {
                               "C02_single_resolves_once", "C02_single_keeps_last_result_refuted"],
                       "completions and polls"),
     "C03": _ops_entry("C03", ["C03_readying_completion_wakes_latest_waker", "C03_queue_full_waiter_is_parked",
-                              "C03_end_of_poll_wakes_parked", "C03_parked_only_if_queue_full_refuted"],
-                      "polls with replaced wakers"),
+                              "C03_end_of_poll_wakes_parked", "C03_parked_only_if_queue_full_refuted",
+                              "C03_race_readying_completion_wakes_latest_waker", "C03_race_parked_waker_is_woken",
+                              "C03_race_parked_waker_h15_lost", "C03_race_refines_atomic_per_operation_partial"],
+                      "polls with replaced wakers",
+                      extra=dict(also_drivers=["C03R"], assumptions=RACE_ASSUMPTIONS, trusted=RACE_TRUSTED,
+                                 model=" + Model/OpRace.v (small-step race, replayed by driver C03R)")),
     "C06": _ops_entry("C06", ["C06_drop_cancels_exactly_it", "C06_cancel_targets_only_dropped",
-                              "C06_state_freed_at_most_once", "C06_dropped_state_is_reclaimed"], "drops"),
+                              "C06_state_freed_at_most_once", "C06_dropped_state_is_reclaimed",
+                              "C06_race_state_reclaimed_exactly_once", "C06_race_reclaimed_c06a_leaks"], "drops",
+                      extra=dict(also_drivers=["C03R"], assumptions=RACE_ASSUMPTIONS, trusted=RACE_TRUSTED,
+                                 model=" + Model/OpRace.v (small-step race, replayed by driver C03R)")),
     "C05": dict(
         driver="C05",
         model="Model/CqRing.v",
